@@ -97,7 +97,7 @@ fn mutant_class(ctx: &Ctx) -> String {
             .unwrap_or_default();
         format!("flip/{}", sweep::fields_hit(&map, off, 1))
     } else {
-        base.to_owned()
+        base.split('#').next().unwrap_or(base).to_owned()
     };
     if resealed {
         format!("{}+resealed", class)
@@ -173,6 +173,63 @@ fn proof_mutants(w: &Worlds, home: &InFlight) -> Vec<Mutant> {
                     label: "headers:insert-honest-predecessor".to_owned(),
                     data: wrap(m.clone().as_builder().headers(v.pack()).build()),
                 });
+            }
+        }
+    }
+    // consistent re-selections: another set of real headers of the same chain, with a VALID MMR
+    // proof for exactly that set (what a lying but well-equipped server can always produce):
+    // one number dropped, one added, one replaced by any other number of the covered range,
+    // one duplicated
+    if let Some(ci) = home_chain {
+        let chain = chains[ci];
+        let last: u64 = m.last_header().header().raw().number().unpack();
+        let nums: Vec<u64> = headers.iter().map(|h| h.header().raw().number().unpack()).collect();
+        let build = |sel: &[u64]| {
+            let mut uniq = sel.to_vec();
+            uniq.sort_unstable();
+            uniq.dedup();
+            let hs: Vec<packed::VerifiableHeader> = sel.iter().map(|n| chain.vh(*n)).collect();
+            wrap(
+                m.clone()
+                    .as_builder()
+                    .headers(hs.pack())
+                    .proof(chain.proof(last, &uniq))
+                    .build(),
+            )
+        };
+        if !nums.is_empty() && last <= chain.tip_number() && nums.iter().all(|n| *n < last) {
+            let lo = nums[0].saturating_sub(2);
+            for i in 0..nums.len() {
+                let mut sel = nums.clone();
+                sel.remove(i);
+                out.push(Mutant { label: format!("reselect:drop-one(valid-proof)#{:?} from {:?}", sel, nums), data: build(&sel) });
+                let mut sel = nums.clone();
+                sel.insert(i, nums[i]);
+                out.push(Mutant { label: format!("reselect:duplicate-one(valid-proof)#{:?}", sel), data: build(&sel) });
+                for x in lo..last {
+                    if nums.contains(&x) {
+                        continue;
+                    }
+                    let mut sel = nums.clone();
+                    sel.remove(i);
+                    sel.push(x);
+                    sel.sort_unstable();
+                    out.push(Mutant { label: format!("reselect:replace-one(valid-proof)#{:?}", sel), data: build(&sel) });
+                }
+            }
+            for x in lo..last {
+                if nums.contains(&x) {
+                    continue;
+                }
+                let mut sel = nums.clone();
+                sel.push(x);
+                sel.sort_unstable();
+                out.push(Mutant { label: format!("reselect:add-one(valid-proof)#{:?}", sel), data: build(&sel) });
+            }
+            // every section shifted down by one block
+            if nums[0] > 0 {
+                let sel: Vec<u64> = nums.iter().map(|n| n - 1).collect();
+                out.push(Mutant { label: format!("reselect:all-shifted-down(valid-proof)#{:?}", sel), data: build(&sel) });
             }
         }
     }
